@@ -13,7 +13,7 @@ except Exception:
 m = {"version": 1,
      "setup_cmd": "python3 -c \"import sys; sys.path.insert(0,'/verif'); import vf.unit, vf.run, vf.extra\" && verus --version >/dev/null",
      "hooks": {"guard": "gm_rs_verif", "enable": "RUSTFLAGS='--cfg gm_rs_verif' (only the replay harness uses hooks; the verifier reads source text and needs none)",
-               "baseline_off_cmd": "cd /repo && cargo test --workspace --no-fail-fast --offline", "source_commits": hooks_commits, "add_only": True},
+               "baseline_off_cmd": "cd /repo && cargo test --workspace --no-fail-fast --offline --lib --bins --tests", "source_commits": hooks_commits, "add_only": True},
      "engines": [{"name": "vf", "path": "/verif/vf", "serves_properties": sorted(CLAIMS),
                   "kind_free_text": "extractor/weaver: copies the functions of a unit from /repo's working tree token by token, applies declared rewrite rules, weaves the Verus contracts of units/<unit>.rs onto them by token alignment, runs Verus on the result and maps failed obligations to VIOLATION lines"}],
      "checks": [], "not_applicable": [],
